@@ -162,49 +162,47 @@ Section Comp.
         end
     end.
 
-  (* compilePackage (local branch) + importLocalFile + fileValue for one import
-     found in a script whose directory is dir; self compiles an imported script *)
+  (* second half of importLocalFile: bundleLocalFile + fileValue on the located path *)
+  Definition load (self : path -> list import -> layout -> res (list tree * layout))
+      (ip : path) (i : import) (A1 : layout) : res (tree * layout) :=
+    let fn := add_arrai ip in
+    match hook_file fn A1 with
+    | Ok A2 =>
+        match lookup L fn with
+        | None => Err
+        | Some f =>
+            if i_dec i then Ok (Node f KExplicit [], A2)
+            else if negb (seg_eqb (path_ext fn) s_arrai_ext) then Ok (Node f (KImplicit (path_ext fn)) [], A2)
+            else match f_imps f with
+                 | None => Err
+                 | Some imps =>
+                     match self (removelast fn) imps A2 with
+                     | Ok (ch, A3) => Ok (Node f KScript ch, A3)
+                     | Err => Err | Panic => Panic | OOF => OOF
+                     end
+                 end
+        end
+    | Err => Err | Panic => Panic | OOF => OOF
+    end.
+
+  (* compilePackage (local branch) + importLocalFile for one import found in a
+     script whose directory is dir; self compiles an imported script *)
   Definition do_import (self : path -> list import -> layout -> res (list tree * layout))
       (dir : path) (A : layout) (i : import) : res (tree * layout) :=
     let cl := if i_root i then (O, clean_abs (i_segs i)) else clean_rel (i_segs i) in
     let r := snd cl in
     if negb (i_root i) && ((0 <? fst cl)%nat || starts_dotdot (hd [] r)) then Err
     else if i_root i && match r with [] => true | _ => false end then Err
-    else
-      let located :=
-        if i_root i then
-          match find_root L dir with
-          | None => Err
-          | Some root =>
-              match hook_sentinel root A with
-              | Ok A1 => Ok (root ++ r, A1)
-              | Err => Err | Panic => Panic | OOF => OOF
-              end
-          end
-        else Ok (dir ++ r, A) in
-      match located with
-      | Ok (ip, A1) =>
-          let fn := add_arrai ip in
-          match hook_file fn A1 with
-          | Ok A2 =>
-              match lookup L fn with
-              | None => Err
-              | Some f =>
-                  if i_dec i then Ok (Node f KExplicit [], A2)
-                  else if negb (seg_eqb (path_ext fn) s_arrai_ext) then Ok (Node f (KImplicit (path_ext fn)) [], A2)
-                  else match f_imps f with
-                       | None => Err
-                       | Some imps =>
-                           match self (removelast fn) imps A2 with
-                           | Ok (ch, A3) => Ok (Node f KScript ch, A3)
-                           | Err => Err | Panic => Panic | OOF => OOF
-                           end
-                       end
-              end
+    else if i_root i then
+      match find_root L dir with
+      | None => Err
+      | Some root =>
+          match hook_sentinel root A with
+          | Ok A1 => load self (root ++ r) i A1
           | Err => Err | Panic => Panic | OOF => OOF
           end
-      | Err => Err | Panic => Panic | OOF => OOF
-      end.
+      end
+    else load self (dir ++ r) i A.
 
   Fixpoint comp_list (self : path -> list import -> layout -> res (list tree * layout))
       (dir : path) (imps : list import) (A : layout) : res (list tree * layout) :=
